@@ -1,6 +1,7 @@
 package vsync
 
 import (
+	"reflect"
 	"sync"
 
 	"go.uber.org/zap/zzverif/vsched"
@@ -47,6 +48,9 @@ func (p *Pool) Put(x any) {
 		return
 	}
 	p.st.PutPoint()
+	if h := vsched.PoolDoublePut; h != nil && reflect.ValueOf(x).Kind() == reflect.Ptr && p.st.Holds(x) {
+		h(x)
+	}
 	if h := vsched.PoolPutHook; h != nil {
 		h(x)
 	}
